@@ -352,3 +352,5 @@ ENTRIES["C14"]["text"] += (" TieColl.nonCollidingOffsets_is_source ([G]): non_co
     "is the model's nonCollidingOffsets; TieColl.tasks_is_source: the skip set reaches the task enumeration as in the model.")
 ENTRIES["C10"]["text"] += (" TieColl.robotBody_is_source ([G]): collision_details / near / collides / process_collision_tasks as wired in the CURRENT source (which table, "
     "which mode override, no skips) are the model's functions.")
+ENTRIES["C17"]["text"] += (" Props/Tie.frame_is_source' ([G]): Frame::frame and distances_match, translated expression by expression from the CURRENT source (rejections in "
+    "order with their own errors and the triple they name, the two bases, their product, the translation), are the model's frameOf / distancesMatch (rfl).")
